@@ -755,6 +755,12 @@ func (e *Engine) MessageReceived(ctx context.Context, p peer.ID, m bsmsg.BitSwap
 	e.lock.Lock()
 
 	if m.Full() {
+		// A full wantlist replaces the previous one: forget its queued tasks too.
+		if topics := e.peerRequestQueue.PeerTopics(p); topics != nil {
+			for _, topic := range topics.Pending {
+				e.peerRequestQueue.Remove(topic, p)
+			}
+		}
 		e.peerLedger.ClearPeerWantlist(p)
 	}
 
